@@ -8,6 +8,7 @@ import (
 	"flag"
 	"fmt"
 	"os"
+	"runtime/debug"
 	"sort"
 	"strings"
 	"time"
@@ -82,6 +83,8 @@ func main() {
 	sample := flag.Bool("sample", false, "search mode with one run: trace it and print the single-run result")
 	tapeLog := flag.String("tapelog", "", "log every draw to this file as it happens (crash attribution)")
 	flag.Parse()
+	debug.SetMaxStack(256 << 20)
+	sim.TraceToStderr = *trace || *sample
 
 	avoidSet := map[string]bool{}
 	for _, a := range strings.Split(*avoid, ",") {
